@@ -49,12 +49,18 @@ class Action:
 
         conditional_effects = "\n\t\t"
         conditional_effects += "\t\t\n".join(
-            [str(conditional_effect) for conditional_effect in self.conditional_effects]
+            [
+                conditional_effect.print(should_simplify=False)
+                for conditional_effect in self.conditional_effects
+            ]
         )
 
         universal_effects = "\n\t\t"
         universal_effects += "\t\t\n".join(
-            [str(universal_effect) for universal_effect in self.universal_effects]
+            [
+                universal_effect.print(should_simplify=False)
+                for universal_effect in self.universal_effects
+            ]
         )
 
         if len(self.numeric_effects) > 0:
